@@ -3,9 +3,9 @@ namespace Zvt
 
 /-! the virtual clock only moves where the model says so; the terminal's pace (`gap`) never changes -/
 
-@[simp] theorem log_now (w : World) (k : Nat) (s : String) : (w.log k s).now = w.now := rfl
-@[simp] theorem log_conn (w : World) (k : Nat) (s : String) : (w.log k s).conn = w.conn := rfl
-@[simp] theorem log_gap (w : World) (k : Nat) (s : String) : (w.log k s).gap = w.gap := rfl
+@[simp] theorem log_now (w : World) (k : Nat) (s : LogE) : (w.log k s).now = w.now := rfl
+@[simp] theorem log_conn (w : World) (k : Nat) (s : LogE) : (w.log k s).conn = w.conn := rfl
+@[simp] theorem log_gap (w : World) (k : Nat) (s : LogE) : (w.log k s).gap = w.gap := rfl
 @[simp] theorem waited_gap (w : World) (k : Nat) : (w.waited k).gap = w.gap := rfl
 @[simp] theorem waited_conn (w : World) (k : Nat) : (w.waited k).conn = w.conn := rfl
 @[simp] theorem waited_logs (w : World) (k : Nat) : (w.waited k).logs = w.logs := rfl
@@ -238,7 +238,7 @@ theorem connect_time (cfg : Cfg) (w : World) :
   · exact ⟨rfl, Nat.le_refl _, Nat.le_add_right _ _, fun _ => Or.inl rfl⟩
   · split
     · exact ⟨rfl, Nat.le_add_right _ _, Nat.le_refl _, fun _ => Or.inr rfl⟩
-    · generalize hw0 : ({ w with logs := w.logs ++ [[s!"open@{w.now}"]] } : World) = w0
+    · generalize hw0 : ({ w with logs := w.logs ++ [[.opened w.now]] } : World) = w0
       have hn0 : w0.now = w.now := by rw [← hw0]
       have hg0 : w0.gap = w.gap := by rw [← hw0]
       have h1 := onceExchange_time (seqDesc "sequences::Registration" (registrationCmd cfg)) (w.now + TIMEOUT) w0 { id := w.logs.length }
@@ -352,7 +352,7 @@ theorem runItems_gap {σ ρ : Type} (d : SeqDesc) (timeout : Nat) (step : σ →
 
 /-! ### which connection is live; how many connection slots exist -/
 
-@[simp] theorem log_nlogs (w : World) (k : Nat) (s : String) : (w.log k s).logs.length = w.logs.length := by
+@[simp] theorem log_nlogs (w : World) (k : Nat) (s : LogE) : (w.log k s).logs.length = w.logs.length := by
   simp [World.log]
 
 @[simp] theorem put_id (c : ConnSt) (b : Bytes) : (c.put b).id = c.id := by
@@ -439,7 +439,7 @@ theorem dropConn_nlogs (w : World) (c : ConnSt) : (dropConn w c).logs.length = w
 
 /-! #### the log of every OTHER connection is left alone -/
 
-theorem log_other (w : World) (k j : Nat) (s : String) (h : j ≠ k) : (w.log k s).logs[j]? = w.logs[j]? := by
+theorem log_other (w : World) (k j : Nat) (s : LogE) (h : j ≠ k) : (w.log k s).logs[j]? = w.logs[j]? := by
   simp only [World.log, List.getElem?_modify]
   have : ¬ k = j := fun e => h e.symm
   cases w.logs[j]? <;> simp [this]
@@ -863,7 +863,7 @@ theorem connect_outcome (cfg : Cfg) (w : World) :
   · exact ⟨by simp, fun _ => Or.inr rfl⟩
   · split
     · exact ⟨by simp, fun _ => Or.inr rfl⟩
-    · generalize hw0 : ({ w with logs := w.logs ++ [[s!"open@{w.now}"]] } : World) = w0
+    · generalize hw0 : ({ w with logs := w.logs ++ [[.opened w.now]] } : World) = w0
       have h1 := onceExchange_id (seqDesc "sequences::Registration" (registrationCmd cfg)) (w.now + TIMEOUT) w0 { id := w.logs.length }
       generalize onceExchange (seqDesc "sequences::Registration" (registrationCmd cfg)) (w.now + TIMEOUT) w0 { id := w.logs.length } = q1 at h1 ⊢
       obtain ⟨o, w1, c1⟩ := q1
@@ -940,7 +940,7 @@ theorem connect_nlogs (cfg : Cfg) (w : World) : (connect cfg w).1.logs.length = 
   · simp
   · split
     · simp
-    · generalize hw0 : ({ w with logs := w.logs ++ [[s!"open@{w.now}"]] } : World) = w0
+    · generalize hw0 : ({ w with logs := w.logs ++ [[.opened w.now]] } : World) = w0
       have hl0 : w0.logs.length = w.logs.length + 1 := by rw [← hw0]; simp
       have h1 := onceExchange_nlogs (seqDesc "sequences::Registration" (registrationCmd cfg)) (w.now + TIMEOUT) w0 { id := w.logs.length }
       generalize onceExchange (seqDesc "sequences::Registration" (registrationCmd cfg)) (w.now + TIMEOUT) w0 { id := w.logs.length } = q1 at h1 ⊢
